@@ -746,7 +746,16 @@ fn serve(mut s: TcpStream, host: &str, st: &Arc<Mutex<ServerState>>) {
 fn start_servers() -> Result<Arc<Mutex<ServerState>>, String> {
     let st = Arc::new(Mutex::new(ServerState::default()));
     for host in ["127.0.0.1", "127.0.0.2"] {
-        let l = TcpListener::bind((host, 80)).map_err(|e| format!("cannot bind {}:80: {}", host, e))?;
+        // the client can only address port 80 (parse_url appends ":80"); another check may hold it for a moment
+        let wait_s: u64 = std::env::var("VERIF_PORT80_WAIT").ok().and_then(|s| s.parse().ok()).unwrap_or(40);
+        let t0 = std::time::Instant::now();
+        let l = loop {
+            match TcpListener::bind((host, 80)) {
+                Ok(l) => break l,
+                Err(e) if e.kind() == io::ErrorKind::AddrInUse && t0.elapsed().as_secs() < wait_s => std::thread::sleep(Duration::from_millis(250)),
+                Err(e) => return Err(format!("cannot bind {}:80: {}", host, e)),
+            }
+        };
         let st2 = st.clone();
         std::thread::spawn(move || {
             for c in l.incoming().flatten() {
